@@ -335,3 +335,43 @@ func init() {
 		return ""
 	}
 }
+
+func init() {
+	// strings.Compare: lexicographic comparison (the stdlib body ends in an
+	// assembly routine)
+	externals["strings.Compare"] = func(fr *frame, a []value) value {
+		s, ok1 := goString(a[0])
+		t, ok2 := goString(a[1])
+		if ok1 && ok2 {
+			return strings.Compare(s, t)
+		}
+		for i := 0; i < 2; i++ {
+			if d, isDec := a[i].(decstr); isDec {
+				a[i] = symstr{expandDec(d.x)}
+			}
+		}
+		xc, okx := strCells(a[0])
+		yc, oky := strCells(a[1])
+		if !okx || !oky {
+			theEx.unsupported("strings.Compare on opaque text")
+		}
+		n := len(xc)
+		if len(yc) < n {
+			n = len(yc)
+		}
+		var res *Term
+		switch {
+		case len(xc) < len(yc):
+			res = mkConst(64, ^uint64(0))
+		case len(xc) > len(yc):
+			res = mkConst(64, 1)
+		default:
+			res = mkConst(64, 0)
+		}
+		for i := n - 1; i >= 0; i-- {
+			x, y := byteTerm(xc[i]), byteTerm(yc[i])
+			res = mkIte(mkCmp(OpUlt, x, y), mkConst(64, ^uint64(0)), mkIte(mkCmp(OpUlt, y, x), mkConst(64, 1), res))
+		}
+		return fromTerm(types.Typ[types.Int], res)
+	}
+}
